@@ -204,6 +204,15 @@ def judge_C05(v):
             elif oc[0] == 'raise' and not aborts:
                 out.append(('failed-but-left-open', w(outcome=repr(oc[1])),
                             'future failed (%r) but no AbortMultipartUpload was issued for %s' % (oc[1], uid)))
+            elif oc[0] == 'raise':
+                ends = [e for e in evs if e['op'] == 'abort_multipart_upload' and e['phase'] == 'end']
+                if ends and all(e['outcome'] == 'raise:ParamValidationError' for e in ends):
+                    # the client rejected the call before sending anything: the abort never reached the service
+                    out.append(('failed-but-left-open:abort-rejected-by-the-client',
+                                w(outcome=repr(oc[1]), abort_args=sorted(aborts[0]['args'])),
+                                'future failed (%r) and the AbortMultipartUpload for %s carried parameters the operation does not '
+                                'have (%s): botocore rejects it before sending, the upload stays open'
+                                % (oc[1], uid, sorted(aborts[0]['args']))))
         if aborts:
             ta = aborts[0]['t']
             for e in evs:
@@ -276,6 +285,15 @@ def judge_C07(v):
     out = []
     c = v.cancel
     run = v.run
+    if run.failure is not None and c:
+        # the run hangs although a cancellation was issued: some transfer never finishes
+        stuck = [ti for ti, f in run.futures.items() if not f.done()]
+        if stuck:
+            out.append(('cancelled-transfer-never-finishes:%s' % c['kind'],
+                        v.wit(transfers=stuck, statuses=[run.futures[ti]._coordinator.status for ti in stuck], failure=repr(run.failure)[:200]),
+                        'after %s the transfers %s never finish (status %s): result() blocks for ever'
+                        % (c['kind'], stuck, [run.futures[ti]._coordinator.status for ti in stuck])))
+        return out
     if run.main_error is not None:
         e = run.main_error[0]
         kind = c['kind'] if c else None
@@ -579,6 +597,14 @@ def judge_C18(v):
         for ti, f in run.futures.items():
             if not f.done():
                 out.append(('not-done-at-shutdown', v.wit(ti=ti), 'transfer %d not done when shutdown returned' % ti))
+    if ts is not None and run.failure is not None:
+        # shutdown returned, and afterwards the run hangs: a transfer was not done at the barrier and never will be
+        stuck = [ti for ti, f in run.futures.items() if not f.done()]
+        if stuck:
+            out.append(('not-done-at-shutdown:never-finishes',
+                        v.wit(transfers=stuck, statuses=[run.futures[ti]._coordinator.status for ti in stuck]),
+                        'shutdown returned but transfers %s are not done (status %s) and nothing will finish them'
+                        % (stuck, [run.futures[ti]._coordinator.status for ti in stuck])))
     # isolation: a transfer nothing happened to must succeed with the right bytes
     fired = v.fired()
     c = v.cancel
